@@ -74,9 +74,9 @@ func sessionCase(c *core.Ctx, r *core.Result, j *core.Journal, idx int, rng *ran
 		case 1:
 			seed = p.Logon(sn.NextTarget, 30)
 		case 2:
-			seed = p.Msg("2", sn.NextTarget, nil, fixwire.Fields{lab.F(7, core.Pick(rng, "1", "0", "-5", "", "99999999999")), lab.F(16, core.Pick(rng, "0", "", "-1", "5"))})
+			seed = p.Msg("2", sn.NextTarget, nil, fixwire.Fields{lab.F(7, core.Pick(rng, "1", "0", "-5", "", "99999999999", intBoundary(rng))), lab.F(16, core.Pick(rng, "0", "", "-1", "5", intBoundary(rng)))})
 		case 3:
-			seed = p.Msg("4", sn.NextTarget, nil, fixwire.Fields{lab.F(123, core.Pick(rng, "Y", "N", "", "X")), lab.F(36, core.Pick(rng, "", "0", "-3", "x", "99999999999999999999"))})
+			seed = p.Msg("4", sn.NextTarget, nil, fixwire.Fields{lab.F(123, core.Pick(rng, "Y", "N", "", "X")), lab.F(36, core.Pick(rng, "", "0", "-3", "x", "99999999999999999999", intBoundary(rng)))})
 		default:
 			seed = p.Msg(core.Pick(rng, "0", "1", "3", "5", "j", "8", ""), sn.NextTarget, nil, nil)
 		}
